@@ -69,6 +69,11 @@ func (s *Sim) spendable(chain, acct int) (string, int64, bool) {
 	if b.Amount.IsInt64() && b.Amount.Int64() < max {
 		max = b.Amount.Int64()
 	}
+	if strings.HasPrefix(b.Denom, "ibc/") && b.Amount.IsInt64() && b.Amount.Int64() < 100000 && s.R.Intn(5) == 0 {
+		// boundary: the holder's whole balance of a voucher
+		s.C.Inc("sends_of_a_whole_voucher_balance")
+		return b.Denom, b.Amount.Int64(), true
+	}
 	return b.Denom, 1 + int64(s.R.Intn(int(max))), true
 }
 
@@ -137,7 +142,20 @@ func (s *Sim) opSend(pr Profile) string {
 		cls += "-badrecv"
 	}
 	enc := kit.Pick(s.R, []string{transfertypes.EncodingProtobuf, transfertypes.EncodingJSON, transfertypes.EncodingABI})
-	o := s.Send(SendOpt{Lane: l, SrcSide: side, Sender: acct, Signer: acct, Denom: denom, Amt: amt, Receiver: recv, Soon: s.R.Intn(100) < pr.SoonPct, Encoding: enc})
+	// free-text memos (not instructions for any middleware): a memo must not change where tokens or refunds go
+	memo := ""
+	switch s.R.Intn(6) {
+	case 0:
+		memo = "thanks"
+	case 1:
+		memo = "invoice 2026-09/000417, second instalment"
+	case 2:
+		memo = `{"note":"` + strings.Repeat("x", 1+s.R.Intn(200)) + `"}`
+	}
+	if memo != "" {
+		s.C.Inc("plain_sends_with_free_text_memo")
+	}
+	o := s.Send(SendOpt{Lane: l, SrcSide: side, Sender: acct, Signer: acct, Denom: denom, Amt: amt, Receiver: recv, Memo: memo, Soon: s.R.Intn(100) < pr.SoonPct, Encoding: enc})
 	if o == nil || !o.OK() {
 		return cls + "-rej"
 	}
@@ -163,11 +181,54 @@ func (s *Sim) opForward(pr Profile) string {
 		return ""
 	}
 	depth := 1 + s.R.Intn(pr.MaxDepth-1) // number of forward hops
+	// every third route unwinds a voucher with several hops along its own trace (the usual purpose of forwarding), half of the time
+	// with the holder's whole balance (so that escrow totals pass through zero on the way)
+	var trail [][2]string
+	if s.R.Intn(3) == 0 {
+	search:
+		for k := 0; k < len(s.Ch)*5; k++ {
+			from, a := (src+k/5)%len(s.Ch), k%5
+			ch := s.Ch[from]
+			for _, b := range ch.Sim.BankKeeper.GetAllBalances(ch.GetContext(), ch.Addr(a)) {
+				th, _ := splitTrace(s.pathOf(from, b.Denom))
+				if len(th) < 2 || !b.Amount.IsPositive() || !b.Amount.IsInt64() {
+					continue
+				}
+				for _, l := range s.lanesFrom(from, "v1") {
+					if l.Ends[l.side(from)].ID == th[0][1] {
+						src = from
+						first, side, cur = l, l.side(src), l.Ends[1-l.side(src)].Chain
+						acct, denom, amt = a, b.Denom, 1+int64(s.R.Intn(int(min64(b.Amount.Int64(), 40))))
+						if s.R.Bool() {
+							amt = b.Amount.Int64()
+							s.C.Inc("unwind_routes_with_whole_balance")
+						}
+						trail = th[1:]
+						if s.R.Intn(3) == 0 && len(trail) > 1 {
+							trail = trail[:1+s.R.Intn(len(trail)-1)]
+						}
+						depth = len(trail)
+						s.C.Inc("unwind_routes")
+						break search
+					}
+				}
+			}
+		}
+	}
 	var hops []pfmtypes.ForwardMetadata
 	route := fmt.Sprint(src, "→", cur)
 	arrival := first
 	for i := 0; i < depth; i++ {
 		cands := s.lanesFrom(cur, "v1")
+		if trail != nil {
+			var on []*Lane
+			for _, l := range cands {
+				if l.Ends[l.side(cur)].ID == trail[i][1] {
+					on = append(on, l)
+				}
+			}
+			cands = on
+		}
 		if len(cands) == 0 {
 			break
 		}
